@@ -1038,7 +1038,12 @@ pub fn run(ctx: Ctx) -> ! {
     let attempts = all_attempts();
     // ---- layer 1: configuration states ----
     let (depth, cap_states, wall1) = if ctx.quick() { (2usize, 100_000u64, 20.0) } else { (64usize, 100_000u64, 300.0) };
+    let depth = std::env::var("C39_DEPTH").ok().and_then(|s| s.parse().ok()).unwrap_or(depth);
     let mut stats = bfs(&ctx, &m, "account-config", depth, cap_states, wall1);
+    if std::env::var("C39_PHASE1_ONLY").is_ok() {
+        println!("phase 1: {stats:?} wall {:.1}", ctx.elapsed_s());
+        std::process::exit(0);
+    }
     let mut states: Vec<Vec<Op>> = vec![vec![]];
     {
         let g = m.found.lock().unwrap();
@@ -1053,17 +1058,19 @@ pub fn run(ctx: Ctx) -> ! {
     if states.len() as u64 != stats.states {
         mc_core::machinery_error(&format!("configuration layer: explorer counted {} states, recorder has {}", stats.states, states.len()));
     }
+    // development aid only (never set by ./check): look at every k-th configuration state
+    let stride: usize = std::env::var("C39_STATE_STRIDE").ok().and_then(|s| s.parse().ok()).unwrap_or(1).max(1);
     // ---- layer 2: every attempt in every state ----
-    let chunk = 28usize;
+    let chunk = 83usize;
     let mut items: Vec<(usize, usize)> = vec![];
-    for s in 0..states.len() {
+    for s in (0..states.len()).rev().step_by(stride).collect::<Vec<_>>().into_iter().rev() {
         let mut i = 0;
         while i < attempts.len() {
             items.push((s, i));
             i += chunk;
         }
     }
-    let wall2 = if ctx.quick() { 45.0 } else { 1000.0 };
+    let wall2 = if ctx.quick() { 50.0 } else { 1100.0 };
     let t0 = std::time::Instant::now();
     let skipped = std::sync::atomic::AtomicU64::new(0);
     let nontrivial = std::sync::atomic::AtomicU64::new(0);
@@ -1101,7 +1108,10 @@ pub fn run(ctx: Ctx) -> ! {
     cov.insert("config_ops".into(), json!(all_ops().iter().map(|o| format!("{o:?}")).collect::<Vec<_>>()));
     cov.insert("batches".into(), json!(m.batches.iter().map(|b| format!("{b:?}")).collect::<Vec<_>>()));
     cov.insert("fixpoint_reached".into(), json!(!stats.capped && stats.depth_completed >= depth && depth > 8));
-    let exhaustive = !stats.capped && skipped == 0;
+    let exhaustive = !stats.capped && skipped == 0 && stride == 1;
+    if stride != 1 {
+        ctx.note(format!("development run: only every {stride}-th configuration state was given deposit attempts"));
+    }
     ctx.finish(
         Level::ModelChecking,
         "breadth-first over configuration histories of a real account (states merged by raw stored configuration incl. removed entries + model configuration); in every configuration state every deposit attempt (method x batch x named badge x proof) is executed on the engine and compared with the statement's decision table evaluated on the model; non-trivial = attempts with at least one refused bucket",
